@@ -563,6 +563,9 @@ KERNELS = [
     ("manhattan_distance", "xrspatial/proximity.py", "manhattan_distance", "scalar"),
     ("great_circle_distance", "xrspatial/proximity.py", "great_circle_distance", "scalar"),
     ("calc_direction", "xrspatial/proximity.py", "_calc_direction", "scalar"),
+    ("dask_mean", "xrspatial/zonal.py", "_dask_mean", "scalar"),
+    ("dask_std", "xrspatial/zonal.py", "_dask_std", "scalar"),
+    ("dask_var", "xrspatial/zonal.py", "_dask_var", "scalar"),
     ("true_color_alpha_numpy", "xrspatial/multispectral.py", "_true_color_numpy", ("where", "a", ["r"])),
     ("true_color_alpha_dask", "xrspatial/multispectral.py", "_true_color_dask", ("where", "alpha", ["r"])),
     ("proximity_is_target", "xrspatial/proximity.py", "_process_proximity_line", ("target_test",)),
